@@ -34,6 +34,7 @@ CONSTANT ObjDefect     \* "none"; negative controls, each a defect the pinned tr
                        \* "opt-summary-kept" deleting the OPT record leaves the EDNS summary (F22)
                        \* "opt-insert-unsynced" an inserted OPT record does not bring its summary (F29)
                        \* "rename-clears-flag" a rename leaves / sets "no pointer" on bytes it has just compressed (C09-m1)
+                       \* "cache-kept"       the cached question survives a rename / a change of the question (F16)
 
 \* ---- Compress::uncompress, byte-exact, on structurally acceptable bytes ----
 RecOut(p, r) ==
@@ -130,6 +131,20 @@ SubUncompressE(st) ==
   IF ~st.v.mc THEN Okay(st)
   ELSE LET q == UncompressOut(st.p)  v2 == ViewMC(q, FALSE) IN
        Okay([p |-> q, v |-> v2, c |-> IF st.c.tomb THEN st.c ELSE OptionAt(q, st.c.off - st.v.oedns + v2.oedns)])
+
+\* ---- the cached question: filled by the question getters, reset by whatever can change the question ----
+\* (parsed_packet.rs: question_raw0 fills it; rr_iterator.rs set_raw_name / delete, parsed_packet.rs insert into the
+\* question section, rename, recompute of a possibly compressed packet reset it).  op: "set", "del", "unc",
+\* "recompute", "ren", "insq", "readq", anything else leaves it alone; `filled`: whether it held a value before.
+CacheFilledAfter(op, ok, filled, mcBefore, hasQuestion) ==
+  IF ~ok THEN filled
+  ELSE CASE op \in {"set", "del", "insq"} -> FALSE
+         [] op = "ren" -> IF ObjDefect = "cache-kept" THEN filled ELSE FALSE
+         [] op \in {"unc", "recompute"} -> IF mcBefore THEN FALSE ELSE filled
+         [] op = "readq" -> hasQuestion
+         [] OTHER -> filled
+\* what a filled cache must hold: the question of the bytes, uncompressed
+CacheOf(p) == LET m == DecodeT(p) IN [raw0 |-> RawName(m.q[1].labels), type |-> m.q[1].type, class |-> m.q[1].class]
 
 \* ---- insert_rr on the object (no cursor) ----
 NamesRaw(ns) == LET RECURSIVE F(_) F(k) == IF k > Len(ns) THEN <<>> ELSE RawName(ns[k]) \o F(k + 1) IN F(1)
